@@ -25,7 +25,7 @@ const ruleC02 = "stateful histories (avg 25 actions: creates by postings and by 
 func TestC02(t *testing.T) {
 	st := stats.New("C02", "exploration", ruleC02, assumePgsim)
 	defer st.Write(t)
-	n := stats.N(150, 600)
+	n := stats.N(400, 900)
 	st.Set("requested_checks", n)
 	stats.Check(t, n, 2, func(rt *rapid.T) {
 		w, l, sum := RunHistory(rt, st, HistOpts{Focus: []string{"C02"}, Features: GenFeatures, Steps: 25, Scripts: true, Reverts: true, Metadata: true, Reads: true, FinalReads: true})
